@@ -31,6 +31,12 @@ func CheckIfAccountIsSuitableForDestroyingAt(account sdk.AccountI, now time.Time
 		return
 	}
 
+	if _, isPermanentLocked := account.(*vestingtypes.PermanentLockedAccount); isPermanentLocked {
+		// the end time of a permanent locked account is always zero, its coins never unlock
+		reason = "permanent locked account is not suitable for destroying"
+		return
+	}
+
 	if vestingAcc, ok := account.(*vestingtypes.BaseVestingAccount); ok {
 		if vestingAcc.GetEndTime() > now.Unix() {
 			reason = "unexpired vesting account is not suitable for destroying"
